@@ -74,7 +74,8 @@ class ExprTr:
     edge: how `X[..., :-1]` / `X[..., 1:]` are read: dict (name,'L'|'R') -> coq var
     """
 
-    def __init__(self, env, attrs=None, consts=None, edge=None, mask_ok=True):
+    def __init__(self, env, attrs=None, consts=None, edge=None, mask_ok=True, subst=None):
+        self.subst = subst or {}
         self.env = env
         self.attrs = attrs or {}
         self.consts = consts or {}
@@ -89,6 +90,13 @@ class ExprTr:
         raise Untranslatable("free name '%s' not declared for this block" % n, node)
 
     def tr(self, e):
+        if self.subst:
+            key = ast.unparse(e)
+            if key in self.subst:
+                v = self.subst[key]
+                if v.startswith("@"):          # current binding of a block variable
+                    return self.name(v[1:], e)
+                return v
         if isinstance(e, ast.Constant):
             return lit(e.value, e)
         if isinstance(e, ast.Name):
@@ -338,7 +346,7 @@ def nth_assign(fn, target, occurrence):
 # --------------------------------------------------------------------------
 
 def block_defs(prefix, stmts, free, outputs, consts=None, attrs=None, edge=None, skip=(), ret_names=None,
-               stop_at=None):
+               stop_at=None, subst=None, skip_src=()):
     """Translate a straight-line block.  free: ordered python names that become
     arguments.  outputs: names (or ret0/ret1 for the return tuple) for which a
     Definition is emitted.  Statements assigning a name in `skip` are ignored
@@ -353,9 +361,14 @@ def block_defs(prefix, stmts, free, outputs, consts=None, attrs=None, edge=None,
         return "l_%s_%d" % (n, version[n])
 
     def mk():
-        return ExprTr(dict(env), attrs=attrs, consts=consts, edge=edge)
+        return ExprTr(dict(env), attrs=attrs, consts=consts, edge=edge, subst=subst)
 
+    seen_skips = set()
     for st in stmts:
+        src_txt = ast.unparse(st)
+        if src_txt in skip_src:
+            seen_skips.add(src_txt)
+            continue
         if isinstance(st, ast.Expr) and isinstance(st.value, ast.Constant):
             continue  # docstring / comment string
         if isinstance(st, ast.Assert):
@@ -366,7 +379,10 @@ def block_defs(prefix, stmts, free, outputs, consts=None, attrs=None, edge=None,
             t = st.targets[0]
             if isinstance(t, ast.Name):
                 if t.id in skip:
-                    env.pop(t.id, None)
+                    if t.id in free:
+                        env[t.id] = "v_" + t.id     # structural assignment: the value is an argument
+                    else:
+                        env.pop(t.id, None)
                     continue
                 term = mk().tr(st.value)
                 v = fresh(t.id)
@@ -377,7 +393,7 @@ def block_defs(prefix, stmts, free, outputs, consts=None, attrs=None, edge=None,
                     and t.slice.id.endswith("_mask"):
                 # outputs[mask] = expr : per-element reading, recorded as <name>_at_<mask>
                 key = "%s_at_%s" % (t.value.id, t.slice.id)
-                if key in skip or t.value.id in skip:
+                if key in skip:
                     continue
                 term = mk().tr(st.value)
                 v = fresh(key)
@@ -413,6 +429,9 @@ def block_defs(prefix, stmts, free, outputs, consts=None, attrs=None, edge=None,
             continue
         raise Untranslatable("statement form %s" % type(st).__name__, st)
 
+    missing = [x for x in skip_src if x not in seen_skips]
+    if missing:
+        raise Untranslatable("block %s: expected structural statement(s) not found: %s" % (prefix, missing))
     defs = []
     args = " ".join("v_" + n for n in free)
     for out in outputs:
